@@ -165,8 +165,6 @@ def _load_known():
 
 def run_with(scn, plan):
     res = core.execute(scn, plan)
-    if res.timed_out:
-        res = core.execute(scn, plan, wall_cap=120.0)
     return res
 
 
